@@ -1,6 +1,7 @@
 package container
 
 import (
+	"errors"
 	"os"
 	"path/filepath"
 	"syscall"
@@ -55,7 +56,8 @@ func removeContents(dir string) error {
 
 	for _, name := range names {
 		err1 := os.RemoveAll(filepath.Join(dir, name))
-		if err1 != nil {
+		// a nested mount point cannot be removed (EBUSY), its content has been removed and it is reset on its own
+		if err1 != nil && !errors.Is(err1, syscall.EBUSY) {
 			err = err1
 		}
 	}
